@@ -268,3 +268,23 @@ func VerifC07Gate() {
 	vapi.Assert(relayed == !(wantAdmin || wantSession), "C07: every other first packet is handed to the redirect target")
 	vapi.Reach("gate-end")
 }
+
+// VerifC09Hidden: the decoded "hidden" header of a WebSocket first request is attacker-controlled in length and
+// content: for every length 0..130 (arbitrary bytes) unmarshalHidden never panics; only exactly 96 bytes are accepted
+// and then the fragments are the input fields; anything else is an error (the caller then relays to the target).
+func VerifC09Hidden() {
+	vConcrete = false
+	priv, _ := vServerKeys()
+	n := vapi.Pick("len", vapi.Param("maxlen", 130)+1)
+	hidden := vapi.Bytes("hidden", n)
+	var fr authFragments
+	var err error
+	panicked := vapi.Catch(func() { fr, err = WebSocket{}.unmarshalHidden(hidden, priv) })
+	vapi.Assert(!panicked, "C09: no hidden-header length or content crashes the server")
+	if n != 96 {
+		vapi.Assert(err != nil, "C09: a hidden header of the wrong size is rejected (the connection is then relayed)")
+	} else if err == nil {
+		vapi.Assert(vapi.BytesEq(fr.randPubKey[:], hidden[:32]) && vapi.BytesEq(fr.ciphertextWithTag[:], hidden[32:]), "C09: accepted fragments are the fields sent")
+	}
+	vapi.Reach("hidden-end")
+}
